@@ -9,7 +9,9 @@ use crate::prng::{fnv_add, Rng};
 use crate::reader::FaultStats;
 use crate::scenario::SchedSpec;
 use std::cell::RefCell;
-use std::sync::{Arc, Condvar, Mutex};
+use std::sync::atomic::{AtomicBool, Ordering};
+use std::sync::{Arc, Condvar, Mutex, MutexGuard};
+use std::time::Duration;
 
 #[derive(Clone, Copy, Debug, PartialEq, Eq)]
 #[repr(u8)]
@@ -21,6 +23,11 @@ pub enum EventKind {
     OpDone = 5,
     Finish = 6,
     Handoff = 7,
+    /// the baton holder was found blocked outside the simulator's control
+    /// (on a lock held by a parked thread) and the baton was passed on
+    Takeover = 8,
+    /// a thread that had been blocked caught up and parked again
+    Unblocked = 9,
 }
 
 enum Chooser {
@@ -50,12 +57,34 @@ struct Inner {
     choices: Vec<u32>,
     switches: u64,
     sched_points: u64,
+    /// threads found blocked on something the simulator does not control
+    blocked: Vec<bool>,
+    os_tids: Vec<i32>,
+    stall_event: u64,
+    stall_cpu: u64,
+    stall_checks: u32,
+    takeovers: u64,
 }
 
 pub struct Shared {
     inner: Mutex<Inner>,
     cv: Condvar,
     nthreads: usize,
+    /// set for a thread when the baton was taken from it while it was blocked
+    taken_over: Vec<AtomicBool>,
+}
+
+const NOBODY: usize = usize::MAX;
+
+/// (state letter, utime + stime in clock ticks) of one of our OS threads.
+fn os_thread_state(tid: i32) -> Option<(char, u64)> {
+    let s = std::fs::read_to_string(format!("/proc/self/task/{}/stat", tid)).ok()?;
+    let rest = &s[s.rfind(')')? + 2..];
+    let f: Vec<&str> = rest.split(' ').collect();
+    let state = f.first()?.chars().next()?;
+    let utime: u64 = f.get(11)?.parse().ok()?;
+    let stime: u64 = f.get(12)?.parse().ok()?;
+    Some((state, utime + stime))
 }
 
 pub struct RunLog {
@@ -66,6 +95,7 @@ pub struct RunLog {
     pub choices: Vec<u32>,
     pub switches: u64,
     pub sched_points: u64,
+    pub takeovers: u64,
     pub trace: Option<Vec<String>>,
 }
 
@@ -113,9 +143,16 @@ impl Shared {
                 choices: Vec::new(),
                 switches: 0,
                 sched_points: 0,
+                blocked: vec![false; nthreads],
+                os_tids: vec![0; nthreads],
+                stall_event: 0,
+                stall_cpu: 0,
+                stall_checks: 0,
+                takeovers: 0,
             }),
             cv: Condvar::new(),
             nthreads,
+            taken_over: (0..nthreads).map(|_| AtomicBool::new(false)).collect(),
         })
     }
 
@@ -138,6 +175,7 @@ impl Shared {
             choices: std::mem::take(&mut g.choices),
             switches: g.switches,
             sched_points: g.sched_points,
+            takeovers: g.takeovers,
             trace: g.trace.take(),
         }
     }
@@ -167,9 +205,10 @@ impl Inner {
     /// Pick the next thread to run.  `me` is the caller (usize::MAX for the
     /// initial choice); if `me` is not live it cannot be chosen.
     fn choose(&mut self, me: usize, n: usize) -> usize {
-        let live: Vec<usize> = (0..n).filter(|&i| self.live[i]).collect();
+        // candidates: not finished and not blocked outside our control
+        let live: Vec<usize> = (0..n).filter(|&i| self.live[i] && !self.blocked[i]).collect();
         debug_assert!(!live.is_empty());
-        let me_live = me < n && self.live[me];
+        let me_live = me < n && self.live[me] && !self.blocked[me];
         let evno = self.sched_points;
         self.sched_points += 1;
         let pick = match &mut self.chooser {
@@ -188,7 +227,10 @@ impl Inner {
             }
             Chooser::RoundRobin => {
                 let start = if me < n { me + 1 } else { 0 };
-                (0..n).map(|k| (start + k) % n).find(|&i| self.live[i]).unwrap()
+                (0..n)
+                    .map(|k| (start + k) % n)
+                    .find(|&i| self.live[i] && !self.blocked[i])
+                    .unwrap()
             }
             Chooser::Pct {
                 prio,
@@ -213,7 +255,7 @@ impl Inner {
                 let c = list.get(*idx).copied();
                 *idx += 1;
                 match c {
-                    Some(c) if (c as usize) < n && self.live[c as usize] => c as usize,
+                    Some(c) if (c as usize) < n && self.live[c as usize] && !self.blocked[c as usize] => c as usize,
                     _ => {
                         if me_live {
                             me
@@ -253,16 +295,90 @@ impl Ctx {
         *self.stats.borrow()
     }
 
+    /// Wait (parked) until this thread holds the baton.  While waiting, watch
+    /// the current holder: if it makes no progress and burns no CPU for a
+    /// while it is blocked on something the simulator does not control - in
+    /// practice a lock taken by the code under test and held by a thread we
+    /// parked inside its critical section.  A real scheduler would simply run
+    /// someone else; so do we (takeover), instead of deadlocking ourselves.
+    fn wait_for_baton<'a>(&'a self, mut g: MutexGuard<'a, Inner>) -> MutexGuard<'a, Inner> {
+        loop {
+            if g.started && g.current == self.tid {
+                return g;
+            }
+            if g.started && g.current == NOBODY && !g.blocked[self.tid] {
+                g.current = self.tid;
+                return g;
+            }
+            let (g2, to) = self.shared.cv.wait_timeout(g, Duration::from_millis(100)).unwrap();
+            g = g2;
+            if to.timed_out() && g.started && g.current != self.tid {
+                self.maybe_takeover(&mut g);
+            }
+        }
+    }
+
+    fn maybe_takeover(&self, g: &mut Inner) {
+        let cur = g.current;
+        if cur == NOBODY || cur >= g.os_tids.len() {
+            return;
+        }
+        let (state, cpu) = match os_thread_state(g.os_tids[cur]) {
+            Some(x) => x,
+            None => return,
+        };
+        if g.event_no != g.stall_event || cpu != g.stall_cpu || state != 'S' {
+            g.stall_event = g.event_no;
+            g.stall_cpu = cpu;
+            g.stall_checks = 0;
+            return;
+        }
+        g.stall_checks += 1;
+        if g.stall_checks < 3 {
+            return;
+        }
+        // The holder has been asleep without progress for >= 300 ms.
+        g.stall_checks = 0;
+        g.blocked[cur] = true;
+        self.shared.taken_over[cur].store(true, Ordering::SeqCst);
+        g.takeovers += 1;
+        g.record(cur, EventKind::Takeover, 0);
+        let n = self.shared.nthreads;
+        if (0..n).any(|i| g.live[i] && !g.blocked[i]) {
+            let next = g.choose(NOBODY, n);
+            g.current = next;
+        } else {
+            // every simulated thread is blocked: a genuine deadlock
+            eprintln!("h2tsim: SIM-DEADLOCK: every simulated caller thread is blocked");
+            std::process::exit(3);
+        }
+        self.shared.cv.notify_all();
+    }
+
+    /// Called at every tick in multi-threaded runs and at every scheduling
+    /// point: a thread whose baton was taken while it was blocked runs on
+    /// concurrently only until here, then parks like everybody else.
+    pub fn check_baton(&self) {
+        if !self.shared.taken_over[self.tid].load(Ordering::Relaxed) {
+            return;
+        }
+        let mut g = self.shared.inner.lock().unwrap();
+        self.shared.taken_over[self.tid].store(false, Ordering::SeqCst);
+        g.blocked[self.tid] = false;
+        g.record(self.tid, EventKind::Unblocked, 0);
+        let _g = self.wait_for_baton(g);
+    }
+
     /// Block until this thread is given the baton for the first time.
     pub fn start(&self) {
         let mut g = self.shared.inner.lock().unwrap();
-        while !(g.started && g.current == self.tid) {
-            g = self.shared.cv.wait(g).unwrap();
-        }
+        g.os_tids[self.tid] = unsafe { libc::gettid() } as i32;
+        let _g = self.wait_for_baton(g);
     }
 
     /// Record an event without offering to yield.
     pub fn log(&self, kind: EventKind, value: u64) {
+        self.check_baton();
         let mut g = self.shared.inner.lock().unwrap();
         g.record(self.tid, kind, value);
     }
@@ -270,13 +386,14 @@ impl Ctx {
     /// A scheduling point: record it, let the scheduler pick who runs next,
     /// and if that is someone else hand over the baton and wait for it.
     pub fn yield_point(&self, kind: EventKind) {
+        self.check_baton();
         let n = self.shared.nthreads;
         let mut g = self.shared.inner.lock().unwrap();
         g.record(self.tid, kind, 0);
         if n <= 1 {
             return;
         }
-        if g.live.iter().filter(|&&l| l).count() <= 1 {
+        if (0..n).filter(|&i| g.live[i] && !g.blocked[i]).count() <= 1 {
             return;
         }
         let next = g.choose(self.tid, n);
@@ -285,21 +402,24 @@ impl Ctx {
             g.current = next;
             self.stats.borrow_mut().switches += 1;
             self.shared.cv.notify_all();
-            while g.current != self.tid {
-                g = self.shared.cv.wait(g).unwrap();
-            }
+            let _g = self.wait_for_baton(g);
         }
     }
 
     /// This thread is done: give the baton away for good.
     pub fn finish(&self) {
+        self.check_baton();
         let n = self.shared.nthreads;
         let mut g = self.shared.inner.lock().unwrap();
         g.record(self.tid, EventKind::Finish, 0);
         g.live[self.tid] = false;
-        if g.live.iter().any(|&l| l) {
+        if (0..n).any(|i| g.live[i] && !g.blocked[i]) {
             let next = g.choose(self.tid, n);
             g.current = next;
+            self.shared.cv.notify_all();
+        } else if g.live.iter().any(|&l| l) {
+            // only blocked threads are left: whoever wakes up first takes over
+            g.current = NOBODY;
             self.shared.cv.notify_all();
         }
     }
